@@ -276,17 +276,25 @@ func (d Diff) RenderMerge() (string, error) {
 		// A noop JSON Merge Patch should be an empty object
 		return "{}", nil
 	}
-	for _, e := range d {
+	// Void additions (deletions) are rendered as null. Rewrite a copy:
+	// the diff belongs to the caller.
+	merge := make(Diff, len(d))
+	for i, e := range d {
 		if !e.Metadata.Merge {
 			return "", fmt.Errorf("cannot render non-merge element as merge")
 		}
-		for i := range e.Add {
-			if isVoid(e.Add[i]) {
-				e.Add[i] = jsonNull{}
+		add := make([]JsonNode, len(e.Add))
+		for j, n := range e.Add {
+			if isVoid(n) {
+				add[j] = jsonNull{}
+			} else {
+				add[j] = n
 			}
 		}
+		e.Add = add
+		merge[i] = e
 	}
-	mergePatch, err := voidNode{}.Patch(d)
+	mergePatch, err := voidNode{}.Patch(merge)
 	if err != nil {
 		return "", err
 	}
